@@ -29,7 +29,44 @@ func main() {
 	atoms := flag.String("atoms", "", "debug: print the normalised condition atoms and lock keys of function specs (comma separated)")
 	mutators := flag.String("mutators", "", "debug: print the mutation sites of function specs (comma separated) using the mutator summary of their package")
 	bounds := flag.String("bounds", "", "debug: run the K-BOUNDS length dataflow on function specs (comma separated), numberenc/binary readers only")
+	siblings := flag.String("siblings", "", "debug: compare the call/guard profiles of a family of sibling functions (comma separated specs)")
 	flag.Parse()
+	if *siblings != "" {
+		prog, err := an.Load(*repo)
+		if err != nil {
+			fmt.Println(err)
+			os.Exit(2)
+		}
+		var profs []*an.SiblingProfile
+		for _, sp := range strings.Split(*siblings, ",") {
+			src := prog.FuncSpec(sp)
+			if src == nil {
+				fmt.Println("??", sp)
+				continue
+			}
+			profs = append(profs, prog.Fn(src).Profile())
+		}
+		keys := map[string]bool{}
+		for _, p := range profs {
+			for k := range p.Calls {
+				keys[k] = true
+			}
+		}
+		for k := range keys {
+			vals := map[string][]string{}
+			for _, p := range profs {
+				v := strings.Join(p.Calls[k], " || ")
+				vals[v] = append(vals[v], p.Fn.Name)
+			}
+			if len(vals) > 1 {
+				fmt.Println("DEVIANT", k)
+				for v, fs := range vals {
+					fmt.Printf("   %v\n      guards: %s\n", fs, v)
+				}
+			}
+		}
+		return
+	}
 	if *bounds != "" {
 		prog, err := an.Load(*repo)
 		if err != nil {
